@@ -18,6 +18,8 @@
 (*   ExecTxs h                        TryNext (both parts of h cached)     *)
 (*   KV block / state / height        Write1 / Write2 / SetHeightEvict     *)
 (*   Crash, Stop (unclean)            Crash                                *)
+(*   KVFail                           WriteFail (refused write, orderly    *)
+(*                                    shutdown with the caches saved)      *)
 (*   Stop clean ; Restart             CleanRestart                         *)
 (*   Restart after a crash            Recover                              *)
 (*   Obs                              projection of the real node = model  *)
@@ -28,7 +30,7 @@
 (* by height: the sequence of records (ExecTxs, writes) is the same for    *)
 (* every reception order.                                                  *)
 (***************************************************************************)
-EXTENDS MCSyncer      \* Syncer + the named shapes; Json / IOUtils come with it (TraceLib's N would clash with Syncer's)
+EXTENDS MCSyncer, AdmissionRules      \* Syncer + the named shapes; Json / IOUtils come with it (TraceLib's N would clash with Syncer's)
 
 Trace == ndJsonDeserialize("trace.ndjson")
 TN == Len(Trace)
@@ -40,8 +42,9 @@ VARIABLES l, run, drifted, drift,
           onDA,       \* genuine blobs on the DA layer: [kind, h, dah]
           cur, chunks, \* the scan: next DA height to examine, id chunks still to fetch of it
           stopped,    \* "no" | "inflight" (stop requested) | "clean" (caches saved, waiting for the restart)
-          ps, lp      \* the P2P stores: height of each store; the polling loops' cursors (volatile)
-xvars == <<l, run, drifted, drift, inq, onDA, cur, chunks, stopped, ps, lp>>
+          ps, lp,     \* the P2P stores: height of each store; the polling loops' cursors (volatile)
+          fs          \* heights of the P2P header store that hold an adversary's header
+xvars == <<l, run, drifted, drift, inq, onDA, cur, chunks, stopped, ps, lp, fs>>
 svars == <<vars, xvars>>
 
 e == Trace[l]
@@ -53,26 +56,26 @@ CanApply == Nxt \in hc /\ Nxt \in dc
 \* (after a stop request the loop takes no further event and starts no further block; and a loop that the harness holds
 \* inside its last durable write -- the stop request that follows says so -- has not come back to its select yet)
 RECURSIVE NextCtl(_)
-NextCtl(j) == IF j > TN THEN 0 ELSE IF Trace[j].ev \in {"Deliver", "DAGetIDs", "DAGet", "P2PReadFault"} THEN NextCtl(j + 1) ELSE j
+NextCtl(j) == IF j > TN THEN 0 ELSE IF Trace[j].ev \in {"Deliver", "DAGetIDs", "DAGet", "P2PReadFault", "Inject"} THEN NextCtl(j + 1) ELSE j
 Parked == LET j == NextCtl(l) IN j # 0 /\ Trace[j].ev = "StopInFlight" /\ Trace[j].paused
 SilentEnabled == stopped # "inflight" /\ ((pc = "idle" /\ inq # <<>>) \/ (pc = "try" /\ ~CanApply)) /\ ~Parked
 Is(name) == l <= TN /\ ~drifted /\ ~SilentEnabled /\ e.ev = name
 Adv == l' = l + 1 /\ UNCHANGED <<run, drifted, drift>>
 Same == UNCHANGED vars
-Keep == UNCHANGED <<inq, onDA, cur, chunks, stopped, ps, lp>>
-P2P == UNCHANGED <<ps, lp>>
+Keep == UNCHANGED <<inq, onDA, cur, chunks, stopped, ps, lp, fs>>
+P2P == UNCHANGED <<ps, lp, fs>>
 
-AllowedSrc == {"model", "stopqueued", "handover", "p2pidle", "crashenum", "retrieve"}
+AllowedSrc == {"model", "stopqueued", "handover", "p2pidle", "crashenum", "retrieve", "writeerr", "adversary"}
 
 SInit == Init /\ l = 1 /\ run = "" /\ drifted = FALSE /\ drift = <<>> /\ inq = <<>> /\ onDA = {} /\ cur = 1 /\ chunks = 0 /\ stopped = "no"
-         /\ ps = [hdr |-> 0, data |-> 0] /\ lp = [hdr |-> 0, data |-> 0]
+         /\ ps = [hdr |-> 0, data |-> 0] /\ lp = [hdr |-> 0, data |-> 0] /\ fs = {}
 
 SReset ==
     /\ l <= TN /\ e.ev = "Reset"
     /\ l' = l + 1 /\ run' = e.run /\ drift' = drift
     /\ drifted' = ~(e.ih = IH /\ e.shape = ShapeName /\ e.src \in AllowedSrc)
     /\ inq' = <<>> /\ onDA' = {} /\ cur' = (IF "dastart" \in DOMAIN e THEN e.dastart ELSE 1) /\ chunks' = 0 /\ stopped' = "no"
-    /\ ps' = [hdr |-> e.ih - 1, data |-> e.ih - 1] /\ lp' = [hdr |-> e.ih - 1, data |-> e.ih - 1]
+    /\ ps' = [hdr |-> e.ih - 1, data |-> e.ih - 1] /\ lp' = [hdr |-> e.ih - 1, data |-> e.ih - 1] /\ fs' = {}
     /\ left' = [x \in Events |-> 1 + MaxDup] /\ got' = {}
     /\ kv' = [height |-> IH - 1, stateH |-> IH - 1, blocks |-> {}]
     /\ hc' = {} /\ dc' = {} /\ seenH' = {} /\ seenD' = {} /\ files' = NoFiles
@@ -83,27 +86,48 @@ InChain(kind, h) == h \in Hts /\ (kind = "hdr" \/ ~IsEmpty(h))
 \* what a polling loop hands over when it finds its store above its cursor: every height in between, in order
 \* (block/store.go; the cursor is volatile and starts at the chain height, the store outlives the process)
 Range(kind, a, b) == IF b < a THEN <<>>
-                     ELSE SelectSeq([j \in 1 .. (b - a + 1) |-> Ev(kind, a + j - 1)], LAMBDA x : InChain(x.kind, x.h))
+                     ELSE SelectSeq([j \in 1 .. (b - a + 1) |-> Ev(kind, a + j - 1)],
+                                    LAMBDA x : InChain(x.kind, x.h) /\ ~(x.kind = "hdr" /\ x.h \in fs))
 PollAll(q) == q \o Range("hdr", lp.hdr + 1, ps.hdr) \o Range("data", lp.data + 1, ps.data)
 Polled == [hdr |-> IF ps.hdr > lp.hdr THEN ps.hdr ELSE lp.hdr, data |-> IF ps.data > lp.data THEN ps.data ELSE lp.data]
 SDeliver ==
     /\ Is("Deliver") /\ Adv /\ Same
     /\ CASE e.via \in {"chan", "queued"} ->
               /\ inq' = IF InChain(e.kind, e.h) /\ pc # "down" THEN Append(inq, Ev(e.kind, e.h)) ELSE inq
-              /\ UNCHANGED <<onDA, cur, chunks, stopped, ps, lp>>
+              /\ UNCHANGED <<onDA, cur, chunks, stopped, ps, lp, fs>>
          [] e.via = "p2p" ->      \* appended to the store (in height order); the store's signal makes the loop poll
               /\ ps' = [ps EXCEPT ![e.kind] = e.h]
               /\ IF pc # "down" /\ e.h > lp[e.kind]
                     THEN inq' = inq \o Range(e.kind, lp[e.kind] + 1, e.h) /\ lp' = [lp EXCEPT ![e.kind] = e.h]
                     ELSE inq' = inq /\ lp' = lp
-              /\ UNCHANGED <<onDA, cur, chunks, stopped>>
-         [] e.via = "da" -> onDA' = onDA \cup {[kind |-> e.kind, h |-> e.h, dah |-> e.dah]} /\ UNCHANGED <<inq, cur, chunks, stopped, ps, lp>>
+              /\ UNCHANGED <<onDA, cur, chunks, stopped, fs>>
+         [] e.via = "da" -> onDA' = onDA \cup {[kind |-> e.kind, h |-> e.h, dah |-> e.dah]} /\ UNCHANGED <<inq, cur, chunks, stopped, ps, lp, fs>>
          [] OTHER -> Keep
 \* time passes (a failed store read is retried on the next tick) or the harness fires the polling signals: both stores are polled
 SPollAll ==
     /\ (Is("P2PReadFault") \/ Is("Signal")) /\ Adv /\ Same
     /\ IF pc # "down" THEN inq' = PollAll(inq) /\ lp' = Polled ELSE inq' = inq /\ lp' = lp
-    /\ UNCHANGED <<onDA, cur, chunks, stopped, ps>>
+    /\ UNCHANGED <<onDA, cur, chunks, stopped, ps, fs>>
+
+\* ---------------------------------------------------------------- adversarial offers (C03)
+\* The offer's class is translated into what the admission code looks at (AdmissionRules.ClassH / ClassD); the step is
+\* explained only if the tier-I admission rule REFUSES it - then nothing enters the node. On the P2P path the item
+\* occupies its slot of the header store for good (fs): every later poll of that slot is refused again.
+Uncovered == {"P1", "P1parked", "P1split"}     \* unsigned P2P data of the adversary's choosing: stops the node (not modelled in Syncer)
+SInject ==
+    /\ Is("Inject") /\ e.class \notin Uncovered /\ Adv /\ Same
+    /\ (e.class \in DOMAIN ClassH => IF e.via = "p2p" THEN ~AdmitP2P(ClassH[e.class]) ELSE ~AdmitDAWhen(ClassH[e.class], TRUE))
+    /\ (e.class \in DOMAIN ClassD => ~AdmitData(ClassD[e.class]))
+    /\ IF e.via = "p2p"
+          THEN /\ ps' = [ps EXCEPT !.hdr = e.h] /\ fs' = fs \cup {e.h}
+               /\ IF pc # "down" /\ e.h > lp.hdr
+                     THEN inq' = inq \o Range("hdr", lp.hdr + 1, e.h - 1) /\ lp' = [lp EXCEPT !.hdr = e.h]
+                     ELSE inq' = inq /\ lp' = lp
+          ELSE inq' = inq /\ UNCHANGED <<ps, lp, fs>>
+    /\ UNCHANGED <<onDA, cur, chunks, stopped>>
+SInjectSkip ==
+    /\ Is("Inject") /\ e.class \in Uncovered
+    /\ l' = l + 1 /\ drifted' = TRUE /\ UNCHANGED <<run, drift>> /\ Keep /\ Same
 
 \* the blobs of a DA height, in a fixed order (headers first, by height)
 RECURSIVE BlobSeq(_)
@@ -127,7 +151,7 @@ SGet ==
 
 \* ---------------------------------------------------------------- the sync loop
 SSilent ==
-    /\ l <= TN /\ ~drifted /\ UNCHANGED <<l, run, drifted, drift, onDA, cur, chunks, stopped, ps, lp>>
+    /\ l <= TN /\ ~drifted /\ UNCHANGED <<l, run, drifted, drift, onDA, cur, chunks, stopped, ps, lp, fs>>
     /\ SilentEnabled
     /\ \/ /\ pc = "idle" /\ inq # <<>>
           /\ inq' = Tail(inq)
@@ -149,6 +173,19 @@ SKV ==
        \/ e.kind = "height" /\ pc = "down" /\ Same                     \* start-up: height raised to the state's height
        \/ e.kind \notin {"block", "state", "height"} /\ Same
 
+\* a durable write is refused: the write the loop was about to make is the one that fails; the node reports the
+\* error and shuts down in an orderly way (WriteFail saves the caches); what waits in the channels is lost
+SKVFail ==
+    /\ Is("KVFail") /\ Full /\ Adv /\ UNCHANGED <<onDA, cur, chunks>> /\ P2P
+    /\ IF e.kind \in {"block", "state", "height"}
+          THEN /\ \/ e.kind = "block" /\ pc = "w1"
+                  \/ e.kind = "state" /\ pc = "w2"
+                  \/ e.kind = "height" /\ pc = "w3"
+               /\ e.h = Nxt /\ WriteFail /\ inq' = <<>> /\ stopped' = stopped
+          ELSE \* a write of another loop (DA-inclusion bookkeeping): that loop reports the error, the node shuts down in
+               \* an orderly way; the sync loop finishes the block it is applying and takes nothing more
+               /\ Same /\ inq' = inq /\ stopped' = (IF pc = "down" THEN stopped ELSE "inflight")
+
 \* ---------------------------------------------------------------- process life cycle
 Down == /\ pc' = "down" /\ curEv' = NoEv /\ crashes' = crashes + 1
         /\ UNCHANGED <<left, got, kv, hc, dc, seenH, seenD, files, execLog, restarts, wc, hist>>
@@ -168,7 +205,7 @@ SStop ==
                ELSE Down /\ stopped' = "no"
 SRestart ==
     /\ Is("Restart") /\ Full /\ e.ok /\ Adv /\ UNCHANGED <<onDA, chunks>> /\ inq' = <<>> /\ stopped' = "no"
-    /\ cur' = cur /\ ps' = ps
+    /\ cur' = cur /\ ps' = ps /\ fs' = fs
     /\ IF stopped = "clean" THEN CleanRestart ELSE pc = "down" /\ Recover
     /\ lp' = [hdr |-> kv'.height, data |-> kv'.height]
 
@@ -179,18 +216,19 @@ ObsOK(o) ==
     /\ (o.stOk => o.stH = kv.stateH) /\ (~o.stOk => kv.stateH = IH - 1)
     /\ o.up = (pc = "idle" /\ stopped = "no")
     /\ pc \in {"idle", "down"}
-    /\ o.up => SetOf(o.cH) = hc /\ SetOf(o.cD) = dc
+    \* (the projection lists cached parts above the chain height only; a part left behind at or below it is never used)
+    /\ o.up => SetOf(o.cH) = {x \in hc : x > kv.height} /\ SetOf(o.cD) = {x \in dc : x > kv.height}
 SObs ==
     /\ Is("Obs") /\ Full /\ Adv /\ Same /\ UNCHANGED <<inq, onDA, chunks, stopped>> /\ P2P
     /\ ObsOK(e)
     /\ cur' = IF e.tag = "restart" THEN e.daCur ELSE cur
 
-Consumed0 == {"Reset", "Deliver", "DAGetIDs", "DAGet", "StopInFlight", "P2PReadFault", "Signal"}
-FullEvs == {"ExecTxs", "KV", "Crash", "Stop", "Restart", "Obs"}
+Consumed0 == {"Reset", "Deliver", "DAGetIDs", "DAGet", "StopInFlight", "P2PReadFault", "Signal", "Inject"}
+FullEvs == {"ExecTxs", "KV", "KVFail", "Crash", "Stop", "Restart", "Obs"}
 SOther == /\ l <= TN /\ ~drifted /\ ~SilentEnabled /\ Adv /\ Same /\ Keep
           /\ e.ev \notin Consumed0 /\ ~(e.ev \in FullEvs /\ Full)
 
-Strict == SDeliver \/ SPollAll \/ SGetIDs \/ SGet \/ SSilent \/ SExec \/ SKV \/ SCrash \/ SStopInFlight \/ SStop \/ SRestart \/ SObs \/ SOther
+Strict == SDeliver \/ SInject \/ SInjectSkip \/ SPollAll \/ SGetIDs \/ SGet \/ SSilent \/ SExec \/ SKV \/ SKVFail \/ SCrash \/ SStopInFlight \/ SStop \/ SRestart \/ SObs \/ SOther
 
 SDrift ==
     /\ l <= TN /\ ~drifted /\ e.ev # "Reset" /\ ~ENABLED Strict
